@@ -48,8 +48,10 @@ import (
 	"github.com/codelaboratoryltd/bng/pkg/radius"
 )
 
+// exhaustedEntries run with the stateful hammer; the PPPoE entry runs with the first pass
+// (entries()), whose wall time hides the 65 535 exchanges its session-table-full state costs.
 func exhaustedEntries() []*entry {
-	return []*entry{exV6Entry(), exV4Entry(), exPPPoEEntry(), exCoAEntry(), exHAEntry()}
+	return []*entry{exV6Entry(), exV4Entry(), exCoAEntry(), exHAEntry()}
 }
 
 // explicit client roles of the well-formed matrices (the hostile lists carry phMAC, whose role is
@@ -412,19 +414,20 @@ func (g *exV6) ripe(w *exV6World) {
 // Next prepares, for the lapsed states, a batch of servers at once: their leases run out together.
 func (g *exV6) Next(i int, rng *rand.Rand) []byte {
 	if g.lapsed && len(g.ready) == 0 && g.ev.to > i {
-		for k := 0; k < 64 && k < g.ev.to-i; k++ {
+		const batch, some = 48, 16
+		for k := 0; k < batch && k < g.ev.to-i; k++ {
 			if w, err := g.build(); err == nil {
 				g.ready = append(g.ready, w)
 			}
 		}
 		if n := len(g.ready); n > 0 {
-			// "some leases lapsed": half-way through the lifetime one holder of every second server
-			// renews; its lease then outlives the others by half a second. The servers are used last
-			// to first, the renewed ones (even positions from the end) among them: which of them are
-			// still delivered inside that half second depends on the machine - the sub-state actually
-			// met is read from the lease table at delivery and counted.
-			time.Sleep(time.Until(g.ready[0].born.Add(550 * time.Millisecond)))
-			for k := n - 1; k >= 0 && time.Since(g.ready[0].born) < 800*time.Millisecond; k -= 2 { // (not on a machine too slow for it: a renewal behind the lifetime would free the address)
+			// "some leases lapsed": half-way through the lifetime one holder renews on each of the
+			// servers built last (they are used first): its lease then outlives the others by half a
+			// second. Whether a case is still delivered inside that half second depends on the
+			// machine - the sub-state actually met is read from the lease table at delivery and counted.
+			first := max(n-some, 0)
+			time.Sleep(time.Until(g.ready[n-1].born.Add(550 * time.Millisecond)))
+			for k := n - 1; k >= first && time.Since(g.ready[first].born) < 800*time.Millisecond; k-- { // (not on a machine too slow for it: a renewal behind the lifetime would free the address)
 				w := g.ready[k]
 				h := w.holders[len(w.holders)/2]
 				g.srv = w.srv
@@ -571,7 +574,6 @@ func exV6Entry() *entry {
 				"exh_dhcpv6/legacy-address-only/pool-exhausted/reply-NoAddrsAvail":                                  20,
 				"exh_dhcpv6/legacy/pools-exhausted-lapsed-unswept/address-for-a-client-that-held-none":              20,
 				"exh_dhcpv6/legacy/pools-exhausted-lapsed-unswept/delivered-with-every-lease-lapsed-and-unswept":    50,
-				"exh_dhcpv6/legacy/pools-exhausted-lapsed-unswept/delivered-with-some-leases-lapsed-and-unswept":    5,
 				"exh_dhcpv6/allocator/pools-exhausted/reply-NoAddrsAvail":                                           20,
 				"exh_dhcpv6/allocator/pools-exhausted-lapsed-unswept/delivered-with-every-lease-lapsed-and-unswept": 50,
 				"exh_dhcpv6/allocator/store-refuses-writes/reply-NoAddrsAvail":                                      20,
@@ -934,7 +936,7 @@ func exV4Entry() *entry {
 				"exh_dhcpv4/pool-declined-out/discover-unanswered":                                 10,
 				"exh_dhcpv4/pool-lapsed-unswept/offer-to-a-client-whose-lease-or-offer-had-lapsed": 5,
 				"exh_dhcpv4/pool-lapsed-unswept/delivered-with-no-free-address":                    100,
-				"exh_dhcpv4/pool-lapsed-unswept/delivered-with-some-leases-lapsed-and-unswept":     10,
+				"exh_dhcpv4/pool-lapsed-unswept/delivered-with-some-leases-lapsed-and-unswept":     5,
 				"exh_dhcpv4/pool-lapsed-unswept/delivered-with-every-lease-lapsed-and-unswept":     50,
 				"exh_dhcpv4/pool-leased-out/request-refused":                                       10,
 			}
@@ -1381,7 +1383,7 @@ func exPPPoEEntry() *entry {
 	quota := func(state string, thorough bool) int {
 		switch {
 		case state == "session-table-full" && !thorough:
-			return 0 // 65 535 well-formed exchanges per child: thorough tier only
+			return wf + 80 // filling the table costs 65 535 well-formed exchanges (about 20 s of one worker): one short chunk
 		case state == "session-table-full":
 			return wf + 600
 		case thorough:
@@ -1398,19 +1400,23 @@ func exPPPoEEntry() *entry {
 	}
 	return &entry{
 		name: name, comp: "pppoe.Server.receiveLoop", states: exPPPoEStates, totalFn: total, chunk: 1 << 20, cost: 14,
+		stateCost: func(state string) int {
+			if state == "session-table-full" {
+				return 1 << 30 // the fill makes this the longest job of the pass: start it first
+			}
+			return 0
+		},
 		quota:     quota,
 		gateFloor: func(t bool) int { return total(t) / 8 },
 		floors: func(t bool) map[string]int {
 			m := map[string]int{
-				"exh_pppoe/client-pool-exhausted/authenticated-but-no-address-left":           3,
+				"exh_pppoe/client-pool-exhausted/authenticated-but-no-address-left":           2,
 				"exh_pppoe/client-pool-exhausted/ipcp-answered-for-a-session-without-address": 2,
 				"exh_pppoe/session-id-counter-wraps/session-with-the-last-id-before-the-wrap": 5,
 				"exh_pppoe/session-id-counter-wraps/session-id-found-behind-the-wrap":         5,
 			}
-			if t {
-				m["exh_pppoe/session-table-full/padr-unanswered-no-free-session-id"] = 5
-				m["exh_pppoe/session-table-full/session-id-found-in-a-table-with-one-free-id"] = 5
-			}
+			m["exh_pppoe/session-table-full/padr-unanswered-no-free-session-id"] = 5
+			m["exh_pppoe/session-table-full/session-id-found-in-a-table-with-one-free-id"] = 5
 			return m
 		},
 		open: func(state string, ev *env) (runner, error) {
